@@ -691,6 +691,17 @@ func (db *DB) Prepare(sql string, stmt Stmt) (*Prepared, error) {
 				return nil, err
 			}
 		}
+	case StmtPruneTop:
+		t, err := a.db.table(s.Table)
+		if err != nil {
+			return nil, err
+		}
+		for _, c := range append(append(append([]string(nil), s.KeyCols...), s.PartCols...), s.OrderCol) {
+			if t.Col(c) < 0 {
+				return nil, pgErr("42703", "column %q does not exist", c)
+			}
+		}
+		a.setParam(s.Param, OIDInt8)
 	}
 	maxN := 0
 	for n := range a.params {
@@ -1469,6 +1480,86 @@ func (tx *Tx) execStmt(stmt Stmt, params []Value) (*ExecResult, error) {
 			}
 			tx.deleteRow(t, r)
 			n++
+		}
+		return &ExecResult{Tag: fmt.Sprintf("DELETE %d", n)}, nil
+	case StmtPruneTop:
+		t, err := db.table(s.Table)
+		if err != nil {
+			return nil, err
+		}
+		if s.Param < 1 || s.Param > len(ec.params) {
+			return nil, pgErr("08P01", "there is no parameter $%d", s.Param)
+		}
+		keep, ok := valInt64(ec.params[s.Param-1])
+		if !ok {
+			return nil, pgErr("22P02", "invalid input for row count")
+		}
+		idx := func(cols []string) []int {
+			var out []int
+			for _, c := range cols {
+				out = append(out, t.Col(c))
+			}
+			return out
+		}
+		keyOf := func(r *Row, ix []int) string {
+			var sb strings.Builder
+			for _, i := range ix {
+				var v Value
+				if i < len(r.Vals) {
+					v = r.Vals[i]
+				}
+				fmt.Fprintf(&sb, "%T:%v|", v, v)
+			}
+			return sb.String()
+		}
+		partIx, keyIx, ordIx := idx(s.PartCols), idx(s.KeyCols), t.Col(s.OrderCol)
+		all := tx.rows(t)
+		parts := map[string][]*Row{}
+		var order []string
+		for _, r := range all {
+			k := keyOf(r, partIx)
+			if _, seen := parts[k]; !seen {
+				order = append(order, k)
+			}
+			parts[k] = append(parts[k], r)
+		}
+		kept := map[string]bool{}
+		var sortErr error
+		for _, k := range order {
+			rs := parts[k]
+			sort.SliceStable(rs, func(i, j int) bool {
+				a, b := rs[i].Vals[ordIx], rs[j].Vals[ordIx]
+				switch {
+				case a == nil && b == nil:
+					return false
+				case a == nil:
+					return true // NULLS FIRST for desc
+				case b == nil:
+					return false
+				}
+				c, err := CompareValues(a, b)
+				if err != nil {
+					sortErr = err
+				}
+				return c > 0
+			})
+			for i, r := range rs {
+				if int64(i) < keep {
+					kept[keyOf(r, keyIx)] = true
+				}
+			}
+		}
+		if sortErr != nil {
+			return nil, sortErr
+		}
+		n := 0
+		for _, r := range all {
+			// (a, b, c) NOT IN (...): a key with a NULL component is never
+			// "not in" a non-empty set; the position table has none
+			if !kept[keyOf(r, keyIx)] {
+				tx.deleteRow(t, r)
+				n++
+			}
 		}
 		return &ExecResult{Tag: fmt.Sprintf("DELETE %d", n)}, nil
 	case *StmtSelect:
